@@ -809,3 +809,29 @@ func ClassFrames(g *G, srcMAC, sip4, sip6 []byte) map[int][]byte {
 	}
 	return m
 }
+
+// Directed: every PayloadID class x source class x configuration, all three capacity variants.
+func Directed(g *G, e func(c Cfg, frame, spare []byte, class string)) {
+	srcs := []struct {
+		name     string
+		mac      []byte
+		ip4, ip6 []byte
+	}{
+		{"client", MACClient1, []byte{192, 168, 0, 7}, IP6s[0]},
+		{"clientgua", MACClient2, []byte{192, 168, 0, 8}, IP6s[4]},
+		{"own", DefaultCfg.HostMAC, []byte{192, 168, 0, 129}, IP6s[1]},
+		{"router", DefaultCfg.RouterMAC, []byte{192, 168, 0, 11}, IP6s[4]},
+		{"mcast", MACMcast4, []byte{192, 168, 0, 9}, IP6s[0]},
+		{"offlan", MACClient1, []byte{10, 0, 0, 7}, IP6s[7]},
+		{"4in6", MACClient2, []byte{169, 254, 1, 1}, IP6s[10]},
+	}
+	for _, c := range Cfgs() {
+		for _, s := range srcs {
+			frames := ClassFrames(g, s.mac, s.ip4, s.ip6)
+			for id := 1; id <= 29; id++ {
+				f := frames[id]
+				e(c, f, g.Spare(len(f), g.R.Intn(3)), "d."+s.name)
+			}
+		}
+	}
+}
